@@ -126,3 +126,18 @@ Print Assumptions C01_operands_in_written_order.
 Print Assumptions C01_calls_receive_written_arguments.
 Print Assumptions C01_parentheses_add_no_node.
 Print Assumptions C01_left_associative.
+
+(* State space: the objects this property's model stands for have exactly the fields the model accounts for (StateSpace.v;
+   gen/StateSpaceGen.v is regenerated from the Go sources on every run). A new field - a cache, a memo, a counter - is state
+   the model does not have, so the theorems above would no longer be about the object. *)
+From Coq Require Import String.
+Require Import StateSpaceGen StateSpace.
+Open Scope string_scope.
+Theorem C01_state_space :
+  fields_of "calculator.ExpressionCalculator" = fields ["defaultVariables"; "defaultFunctions"; "variantOperations"; "parser"; "autoVariables"] /\
+  fields_of "calculator/parsers.ExpressionParser" = fields ["tokenizer"; "expression"; "originalTokens"; "initialTokens"; "currentTokenIndex"; "variableNames"; "resultTokens"] /\
+  fields_of "calculator.CalculationStack" = fields ["values"] /\
+  fields_of "calculator/variables.VariableCollection" = fields ["variables"] /\
+  fields_of "calculator/variables.Variable" = fields ["name"; "value"].
+Proof. vm_compute. repeat split; reflexivity. Qed.
+Print Assumptions C01_state_space.
